@@ -60,6 +60,16 @@ def obligations(tier):
                       stubs=STUBS, bounds='symbolic dv, sv, mv in N, str <= 2; 2 consecutive transactions (delete/update/create then '
                       're-create/delete/update), mirror compared after each',
                       claim='mirror after every prefix of a 2-transaction history incl. delete -> re-create with greater versions'))
+    if tier == 'thorough':
+        codes = ['metric_m0', 'metric_m1', 'alert', 'component', 'operational', 'context_new', 'context_update', 'context_two',
+                 'set_location', 'upd_source', 'upd_condition_signaled', 'upd_metric_descr+state', 'create_metric', 'delete_leaf',
+                 'delete_subtree', 'upd_context_descr', 'create_channel+child', 'create_two_children', 'delete_context_descriptor']
+        for c1, name in enumerate(codes):
+            obs.append(Ob(f'C01.seq.{name}.then_any', 'harness.C01', 'mirror_two_kinds', bind={'c1': c1}, timeout=1200, functions=F,
+                          stubs=STUBS, twin=False,
+                          bounds=SYM + f'first transaction "{name}", second transaction ANY of the 19 kinds (symbolic); mirror compared '
+                                 'after each; a second transaction rejected by the API must change nothing',
+                          claim='mirror after every prefix of every 2-transaction history over 19 transaction kinds'))
     from checks.C06 import E3_STUBS
     obs.append(Ob('C01.e3.reload_vs_report', 'checks.C06', 'ob_reload_race', kind='py', timeout=240, params={'reports': 1},
                   functions=['sdc11073.mdib.consumermdib.ConsumerMdib.reload_all',
